@@ -32,7 +32,8 @@ func (m *Machine) sx() *sxM {
 	c := m.c
 	x := c.NewSX()
 	x.budget = 200000
-	// token consumers stay opaque and are recorded as steps: functions of this package taking a string first and returning (T, error)
+	// token consumers stay opaque and are recorded as steps: functions of this package taking exactly one string (the token, at any
+	// position) and returning (T, error)
 	sc := c.Types.Scope()
 	for _, n := range sc.Names() {
 		f, ok := sc.Lookup(n).(*types.Func)
@@ -43,7 +44,7 @@ func (m *Machine) sx() *sxM {
 		if sig.Recv() != nil || sig.Params().Len() == 0 || sig.Results().Len() != 2 {
 			continue
 		}
-		if b, ok := sig.Params().At(0).Type().(*types.Basic); !ok || b.Kind() != types.String {
+		if _, ok := tokenParam(sig); !ok {
 			continue
 		}
 		if !types.Identical(sig.Results().At(1).Type(), types.Universe.Lookup("error").Type()) {
@@ -986,17 +987,24 @@ func (m *Machine) callStep(st Step, a *absEval, env *Env, binds map[string]*AVal
 		if len(call.Args) == 0 {
 			return false
 		}
-		role := m.builderStringT(call.Args[0], a.roles)
+		sig := call.Fun.Type().(*types.Signature)
+		ti, _ := tokenParam(sig)
+		if ti >= len(call.Args) {
+			return false
+		}
+		role := m.builderStringT(call.Args[ti], a.roles)
 		if role == "" {
 			return false
 		}
-		sig := call.Fun.Type().(*types.Signature)
 		kind := "FIELD"
 		if b, ok := sig.Results().At(0).Type().(*types.Basic); ok && b.Kind() == types.String {
 			kind = "STR"
 		}
 		okLine := true
-		for _, ar := range call.Args[1:] {
+		for ai, ar := range call.Args {
+			if ai == ti {
+				continue
+			}
 			if d, isD := ar.(TDeref); isD && isParamTerm(d.X, m.lineV) {
 				continue
 			}
@@ -1072,4 +1080,16 @@ func nonNegTerm(t Term) bool {
 		return nonNegTerm(x.X)
 	}
 	return false
+}
+
+// tokenParam: the position of the one string parameter of a token consumer (`parseField(text, line)` or `parseField(line, text)`).
+func tokenParam(sig *types.Signature) (int, bool) {
+	idx, n := -1, 0
+	for i := 0; i < sig.Params().Len(); i++ {
+		if b, ok := sig.Params().At(i).Type().(*types.Basic); ok && b.Kind() == types.String {
+			idx = i
+			n++
+		}
+	}
+	return idx, n == 1 && sig.Params().Len() >= 1
 }
